@@ -663,6 +663,22 @@ EXTRA = [
     "def f(x: Int) -> Int => x\ndef g(x: Int) -> Int =>\n    def x := f(x) + 1\n    x\nprint(g(1))\n",
     "def total := 0\nfor idx in 0 .. 3 do total := total + idx\nprint(\"t={total}\")\n",
 ]
+# names that resemble names the tool chain could coin itself (suffixes, prefixes, substrings of one another), next to
+# shadowing, interpolation and constructor forwarding - the places where a name is taken apart or put together
+def _name_shape_programs():
+    out = []
+    for b, sib in (("x", "x_1"), ("v", "v_2"), ("a", "a1"), ("n", "_n"), ("t", "t__1"), ("w", "w_0"), ("k", "k@".replace("@", "_1_"))):
+        out.append(f"def {b} := 10\ndef {sib} := \"hello\"\ndef {b} := 2.5\ndef y: Str := {sib}\nprint({b})\nprint(y)\n")
+        out.append(f"def f({b}: Int, {sib}: Str) -> Str =>\n    def {b} := \"s\"\n    def {b} := {sib}\n    {b}\nprint(f(1, \"q\"))\n")
+    for short, long_ in (("name", "nickname"), ("id", "idx"), ("a", "ab"), ("tag", "tags")):
+        out.append(f"class Base(def label: Str)\n    def show(self) -> Str => self.label\n"
+                   f"class Item(def {short}: Str, def {long_}: Str): Base(\"<{{{long_}}}>\")\n"
+                   f"def i := Item(\"p\", \"q\")\nprint(i.{short})\nprint(i.show())\n")
+        out.append(f"def {short} := \"p\"\ndef {long_} := \"q\"\nprint(\"{{{long_}}} and {{{short}}}\")\n")
+    return out
+
+
+EXTRA += _name_shape_programs()
 
 
 class Pair:
